@@ -137,6 +137,15 @@ sexp json_read_string (sexp ctx, sexp self, sexp in) {
       case 't':
         buf[i++] = '\t';
         break;
+      case 'b':
+        buf[i++] = '\b';
+        break;
+      case 'f':
+        buf[i++] = '\f';
+        break;
+      case 'r':
+        buf[i++] = '\r';
+        break;
       case 'u':
         utfchar = decode_useq(ctx, in);
         if (0xd800 <= utfchar && utfchar <= 0xdbff) {
